@@ -156,3 +156,196 @@ def run_precomp(req):
 
 
 HANDLERS["precomp"] = run_precomp
+
+
+def run_stream_split(req):
+    import itertools
+    from opfython.stream import splitter as sp
+    cfg = req["cfg"]
+    X = np.array(req["X"], dtype=float)
+    Y = np.array(req["Y"], dtype=int)
+    p, seed = float(req["p"]), int(req["seed"])
+    n = len(Y)
+    fn = sp.split_with_index if cfg.get("with_index") else sp.split
+    bx, by = X.tobytes(), Y.tobytes()
+    r1 = fn(X, Y, p, seed)
+    np.random.seed(seed + 1)
+    np.random.permutation(n)
+    r2 = fn(X, Y, p, seed)
+    bad = []
+    rows_in = sorted((tuple(X[i]), int(Y[i])) for i in range(n))
+    rows_out = sorted([(tuple(r1[0][i]), int(r1[2][i])) for i in range(len(r1[2]))] +
+                      [(tuple(r1[1][i]), int(r1[3][i])) for i in range(len(r1[3]))])
+    if rows_in != rows_out:
+        bad.append("every-sample-in-exactly-one-set-with-its-label")
+    if cfg.get("with_index"):
+        idx = list(r1[4]) + list(r1[5])
+        if sorted(idx) != list(range(n)) or any(tuple(X[i]) != tuple(xr) or int(Y[i]) != int(yr) for i, xr, yr in
+                                                zip(idx, list(r1[0]) + list(r1[1]), list(r1[2]) + list(r1[3]))):
+            bad.append("every-sample-in-exactly-one-set-with-its-label")
+    import math
+    if len(r1[2]) != math.floor(n * p + 0.0) and len(r1[2]) != int(n * p):
+        bad.append("first-set-has-floor(n*p)-samples")
+    if any(a.tobytes() != b.tobytes() for a, b in zip(r1, r2)):
+        bad.append("same-seed-same-split")
+    Xm, Ym = sp.merge(r1[0], r1[1], r1[2], r1[3])
+    if sorted((tuple(Xm[i]), int(Ym[i])) for i in range(len(Ym))) != rows_in:
+        bad.append("merge-gives-back-the-samples")
+    if X.tobytes() != bx or Y.tobytes() != by:
+        bad.append("split-does-not-write-caller-arrays")
+    return dict(obs=dict(sizes=[len(r1[2]), len(r1[3])]), violated=bad)
+
+
+def run_stream_convert(req):
+    import os
+    import struct
+    import tempfile
+    from opfython.utils import converter as conv
+    from opfython.stream import loader, parser
+    from opfython.core.subgraph import Subgraph
+    import opfython.utils.exception as exc
+    cfg = req["cfg"]
+    n, f, K = cfg["n"], cfg["f"], cfg.get("K", 2)
+    if req.get("generic"):
+        # the symbolic run raised before any value mattered: replay on a generic valid data set
+        req = dict(req, ids=list(range(n)), labs=[1 + (i % K) for i in range(n)],
+                   feats=[[0.5 * (i + 1) + 0.25 * j for j in range(f)] for i in range(n)])
+    ids = [int(v) for v in req["ids"]]
+    labs = [int(v) for v in req["labs"]]
+    feats32 = [[float(np.float32(v)) for v in r] for r in req["feats"]]
+    bad = []
+    with tempfile.TemporaryDirectory() as td:
+        path = os.path.join(td, "data.dat")
+        with open(path, "wb") as fh:
+            fh.write(struct.pack("<iii", n, K, f))
+            for i in range(n):
+                fh.write(struct.pack("<ii" + "f" * f, ids[i], labs[i], *feats32[i]))
+        cwd = os.getcwd()
+        os.chdir(td)
+        try:
+            conv.opf2txt("data.dat")
+            conv.opf2csv("data.dat", "other.csv")
+            conv.opf2json("data.dat")
+            loaded = dict(txt=loader.load_txt("data.txt"), csv=loader.load_csv("other.csv"), json=loader.load_json("data.json"))
+            lab0 = [l - 1 for l in labs]
+            seq = set(lab0) == set(range(max(lab0) + 1))
+            for k, arr in loaded.items():
+                if arr is None or arr.shape != (n, f + 2):
+                    bad.append("%s-loaded-shape" % k)
+                    continue
+                for i in range(n):
+                    if arr[i][0] != ids[i]:
+                        bad.append("%s-identifier-preserved[%d]" % (k, i))
+                    if arr[i][1] != lab0[i]:
+                        bad.append("%s-label-shifted-to-zero-base[%d]" % (k, i))
+                    for j in range(f):
+                        if float(arr[i][j + 2]) != feats32[i][j]:
+                            bad.append("%s-feature-is-stored-value[%d,%d]" % (k, i, j))
+                try:
+                    try:
+                        X, Y = parser.parse_loader(arr)
+                    except IndexError as ex:
+                        bad.append("pipeline-does-not-raise")
+                        continue
+                    if not seq:
+                        bad.append("%s-parse-accepts-only-sequential-labels" % k)
+                    elif [int(v) for v in Y] != lab0 or [[float(v) for v in r] for r in X] != feats32:
+                        bad.append("%s-parsed-label" % k)
+                except exc.ValueError:
+                    if seq:
+                        bad.append("%s-parse-rejects-only-non-sequential-labels" % k)
+            for k, pth in (("txt", "data.txt"), ("csv", "other.csv"), ("json", "data.json")):
+                try:
+                    g = Subgraph(from_file=pth)
+                    if seq and ([int(nd.label) for nd in g.nodes] != lab0 or
+                                [[float(v) for v in nd.features] for nd in g.nodes] != feats32):
+                        bad.append("%s-from-file-builds-the-graph" % k)
+                except exc.ValueError:
+                    if seq:
+                        bad.append("%s-from-file-builds-the-graph" % k)
+                except IndexError:
+                    bad.append("pipeline-does-not-raise")
+        finally:
+            os.chdir(cwd)
+    return dict(obs={}, violated=bad)
+
+
+HANDLERS["stream_split"] = run_stream_split
+HANDLERS["stream_convert"] = run_stream_convert
+
+
+def run_persist(req):
+    """save / load on the real package (real pickle of numba dispatchers): state and predictions must agree"""
+    import os
+    import tempfile
+    from opfython.models.supervised import SupervisedOPF
+    from opfython.models.semi_supervised import SemiSupervisedOPF
+    from opfython.models.knn_supervised import KNNSupervisedOPF
+    from opfython.models.unsupervised import UnsupervisedOPF
+    import opfython.math.distance as d
+    cfg = req["cfg"]
+    model, branch, n = cfg["model"], cfg["branch"], cfg["n"]
+    metric = cfg.get("metric", "manhattan")
+    cls = dict(sup=SupervisedOPF, semi=SemiSupervisedOPF, knn=KNNSupervisedOPF, uns=UnsupervisedOPF)[model]
+    kw = dict(distance=metric)
+    if model == "knn":
+        kw["max_k"] = 1
+    if model == "uns":
+        kw.update(min_k=1, max_k=1)
+    opf = cls(**kw)
+    N = n + 2
+    if model == "knn" and branch == "pre":
+        N = n
+    if branch == "pre":
+        W = req.get("W") or [[abs(i - j) + 0.25 * (i > j) + 0.5 for j in range(N)] for i in range(N)]
+        opf.pre_computed_distance = True
+        opf.pre_distances = np.array(W, dtype=float)
+        feat = lambda ids: np.zeros((len(ids), 1))
+        idx = lambda ids: np.array(ids, dtype=int)
+    else:
+        f = req.get("f") or [0.5 + 1.75 * i * i for i in range(N)]
+        feat = lambda ids: np.array([[f[i]] for i in ids], dtype=float)
+        idx = lambda ids: None
+    tr = list(range(n))
+    X, Y, I = feat(tr), np.array(cfg["labels"], dtype=int), idx(tr)
+    if model == "sup":
+        opf.fit(X, Y, I)
+    elif model == "semi":
+        opf.fit(X, Y, feat([n]), I)
+    elif model == "knn":
+        opf.fit(X, Y, X, Y, I, I)
+    else:
+        opf.fit(X, Y, I)
+
+    def state(o):
+        g = o.subgraph
+        s = dict(nodes=[[float(nd.cost), int(nd.pred), int(nd.predicted_label), int(nd.status), int(nd.cluster_label),
+                         int(nd.root), float(nd.density), int(nd.label), int(nd.idx)] for nd in g.nodes],
+                 order=[int(x) for x in g.idx_nodes], trained=g.trained, distance=o.distance,
+                 fn_is_registry=o.distance_fn is d.DISTANCES[o.distance], pre=o.pre_computed_distance)
+        for a in ("best_k", "constant", "min_density", "max_density", "n_clusters", "density"):
+            if hasattr(g, a):
+                s[a] = float(getattr(g, a))
+        return s
+    bad = []
+    with tempfile.TemporaryDirectory() as td:
+        path = os.path.join(td, "model.pkl")
+        s0 = state(opf)
+        opf.save(path)
+        if state(opf) != s0:
+            bad.append("save-does-not-alter-the-original")
+        other = cls(**{k: v for k, v in kw.items() if k != "distance"})
+        other.load(path)
+        s1 = state(other)
+        if s1 != s0:
+            bad.append("loaded-state-equals-saved-state")
+        q = [n + 1] if N > n else [0]
+        p1 = opf.predict(feat(q), idx(q))
+        p2 = other.predict(feat(q), idx(q))
+        flat = lambda p: [list(map(int, t)) for t in p] if isinstance(p, tuple) else [int(t) for t in p]
+        if flat(p1) != flat(p2):
+            bad.append("loaded-model-predicts-like-the-original")
+    return dict(obs=dict(preds=flat(p1)), violated=bad)
+
+
+HANDLERS["persist"] = run_persist
